@@ -59,6 +59,11 @@ def check(replay=None):
             for i, f in enumerate(files):
                 jobs.append((["cursor-replay", f, os.path.join(wd, f"scr-{name}-{ci}-{i}"), vlib.REPLAYS, PROP, flag, val] +
                              (["--sst-leaves"] if flag == "--sst-restarts" else []), {"VH_KEYSET": keyset, "VH_PAD": str(pad)}))
+        # the empty key as the first stored key: table facts only (lookups, metadata, refused appends)
+        for (flag, val) in (("--block-leaves", "2,1"), ("--sst-restarts", "1,1"), ("--sst-restarts", "1024,2")):
+            for i, tf in enumerate(tfiles):
+                jobs.append((["cursor-replay", tf, os.path.join(wd, f"scr-{name}-e-{flag[2]}{val}-{i}"), vlib.REPLAYS, PROP, flag, val] +
+                             (["--sst-leaves"] if flag == "--sst-restarts" else []), {"VH_KEYSET": "empty1", "VH_PAD": "0"}))
         results = run_env_jobs(jobs)
         for res in results:
             out.traces += res["evaluations"]
